@@ -21,5 +21,6 @@ CONSTANTS
   CallsWithReq = FALSE
   DevKwEval = FALSE
   ScenKind = "const"
+VIEW ViewNoOutUnordered
 CONSTRAINT ExportScen
 CHECK_DEADLOCK FALSE
